@@ -67,17 +67,20 @@ def judge_message(col: common.Collector, ll: codecrun.LoadedLayer, model: Dict[s
             return
     assigns = full_assign(rq, model, r, mode, dobjs, tier)
     accepted: List[Tuple[Dict[str, Any], bytes]] = []
+    warned: List[Tuple[Dict[str, Any], bytes]] = []
     for vals in assigns:
         e = codecrun.encode(obj, vals, request)
         if e.ok and not e.overlap_warnings:
             accepted.append((vals, e.value))
-    if not accepted:
+        elif e.ok:
+            warned.append((vals, e.value))  # still a successful encoding: its length counts
+    if not accepted and not warned:
         col.count("messages-without-accepted-assignment")
         return
     kind_of = {p["name"]: codecrun.describe_param(ll.ref, p) for p in rq["params"]}
     # (1) static length
     if static.value is not None:
-        for vals, pdu in accepted:
+        for vals, pdu in accepted + warned:
             col.ev()
             if 8 * len(pdu) != static.value:
                 bad("static-length-differs", "condensed-mask" if has_condensed(model, rq["params"]) else
@@ -93,6 +96,9 @@ def judge_message(col: common.Collector, ll: codecrun.LoadedLayer, model: Dict[s
                                               for p in rq["params"]):
             # not a violation of the statement (it only speaks about reported lengths)
             col.count("static-length-none-although-fixed")
+    if not accepted:
+        col.count("messages-with-warned-assignments-only")
+        return
     # (2) constant prefix
     pb = bytes(prefix.value)
     for vals, pdu in accepted:
